@@ -31,7 +31,7 @@ func (r *Realm) ToPropertyDescriptor(v Value) Desc {
 	if r.HasProperty(o, "configurable") { // 4
 		d.Configurable, d.HasConfigurable = ToBoolean(r.Get(o, "configurable")), true
 	}
-	if r.HasProperty(o, "value") { // 5
+	if !r.Quirk.DescriptorValueLast && r.HasProperty(o, "value") { // 5
 		d.Value, d.HasValue = r.Get(o, "value"), true
 	}
 	if r.HasProperty(o, "writable") { // 6
@@ -50,6 +50,17 @@ func (r *Realm) ToPropertyDescriptor(v Value) Desc {
 			throwType()
 		}
 		d.Set, d.HasSet = setter, true
+	}
+	if r.Quirk.DescriptorValueLast {
+		if (d.HasGet || d.HasSet) && d.HasWritable {
+			throwType()
+		}
+		if r.HasProperty(o, "value") {
+			if d.HasGet || d.HasSet {
+				throwType()
+			}
+			d.Value, d.HasValue = r.Get(o, "value"), true
+		}
 	}
 	if d.HasGet || d.HasSet { // 9
 		if d.HasValue || d.HasWritable {
